@@ -50,6 +50,9 @@ type concParams struct {
 	SQ   int  `json:"sq,omitempty"`
 	ST   int  `json:"st,omitempty"`
 	Stmt bool `json:"stmt,omitempty"`
+	// CrashAll (C04): recover the durable image after every mutating storage operation of the
+	// concurrent window, not only at sync acknowledgements and at the end.
+	CrashAll bool `json:"crash_all,omitempty"`
 }
 
 // linInput / linOutput are the porcupine operation payloads.
@@ -172,6 +175,9 @@ type concRun struct {
 	Stor    *harness.World
 	Faulted bool     // storage faults were armed during the window
 	Dur     []durRec // writes acknowledged with the sync option (or committed transactions)
+	P       *concParams
+	WinPos  int // length of the storage-operation log when the concurrent window opened
+	Aux     int // work counter of the extra oracle (crash images recovered)
 }
 
 // durRec: a write whose acknowledgement promises durability; AckPos is the length of the
@@ -207,7 +213,7 @@ type reader interface {
 
 // runConc executes the driver once under the given choice prefix.
 func runConc(p *concParams, prefix []int, extra func(w *harness.World, cr *concRun)) (*vsched.Result, *concRun) {
-	cr := &concRun{Faulted: len(p.Faults) > 0}
+	cr := &concRun{Faulted: len(p.Faults) > 0, P: p}
 	vsched.StmtEnabled = p.Stmt
 	defer func() { vsched.StmtEnabled = true }()
 	vsched.WantWhere = p.Where
@@ -238,6 +244,7 @@ func runConc(p *concParams, prefix []int, extra func(w *harness.World, cr *concR
 			cr.Init[k] = v
 		}
 		db := w.DB
+		cr.WinPos = len(w.Stor.Ops)
 		for _, f := range p.Faults {
 			w.Stor.Rules = append(w.Stor.Rules, &vstor.Rule{Kind: vstor.Kind(f.Kind), Types: storage.FileType(f.Type), Nth: f.Nth, Count: f.Count, Mode: vstor.Mode(f.Mode), FlipPos: f.Pos})
 		}
@@ -543,6 +550,7 @@ func concExec(p *concParams, prefix []int, extra func(w *harness.World, cr *conc
 		return x
 	}
 	x.Viol = append(x.Viol, cr.Viol...)
+	x.Aux = cr.Aux
 	if r.Diverged != "" {
 		return x
 	}
